@@ -6,6 +6,7 @@ Library used by check.py; also a developer CLI:
 prints one line per failed obligation."""
 import json
 import os
+import re
 import shutil
 import subprocess
 import sys
@@ -127,6 +128,26 @@ def locate_fn(anchors, file, line):
     return best
 
 
+def calls_new_function(anchors, fn, woven_dir):
+    """name of a function without contract that is new w.r.t. the recorded baseline and is called
+    (textually) inside the function `fn` of the woven tree, else None"""
+    new = (anchors.get("normalisations") or {}).get("new_functions") or []
+    if not new or fn is None or not woven_dir:
+        return None
+    try:
+        lines = open(os.path.join(woven_dir, fn["file"]), encoding="utf-8").read().split("\n")
+    except OSError:
+        return None
+    if "%s::%s" % (fn["file"], fn["key"]) in new:
+        return fn["key"].split("::")[-1]      # the new function itself: it has no precondition either
+    body = "\n".join(lines[fn["line_start"] - 1:fn["line_end"]])
+    for u in new:
+        short = u.split("::")[-1]
+        if re.search(r"(?<![A-Za-z0-9_])%s\s*\(" % re.escape(short), body) and not re.search(r"fn\s+%s\s*[<(]" % re.escape(short), body):
+            return short
+    return None
+
+
 def locate_clause(anchors, file, l0, l1, exact=False):
     for c in anchors["clauses"]:
         if c["file"] == file and c["line_start"] <= l0 and l1 <= c["line_end"]:
@@ -201,7 +222,7 @@ def run(repo="/repo", modules=None, function=None, keep=None, rlimit=30, threads
             if vp:
                 vp.kill()
             return res
-        parse(res, p.stdout, p.stderr, anchors)
+        parse(res, p.stdout, p.stderr, anchors, out)
         if vp:
             try:
                 vo, ve = vp.communicate(timeout=timeout)
@@ -226,7 +247,7 @@ def run(repo="/repo", modules=None, function=None, keep=None, rlimit=30, threads
     return res
 
 
-def parse(res, stdout, stderr, anchors):
+def parse(res, stdout, stderr, anchors, woven_dir=None):
     # stdout: one JSON object (possibly preceded by junk lines)
     js = None
     i = stdout.find("{")
@@ -337,6 +358,13 @@ def parse(res, stdout, stderr, anchors):
         if key in seen:
             continue
         seen.add(key)
+        nf = calls_new_function(anchors, fn, woven_dir)
+        if nf:
+            # modular verification: the failing function calls a function that did not exist when the
+            # contracts were written and therefore has no postcondition - a missing contract, not a verdict
+            res.undecided.append({"reason": "%s: obligation %s not discharged, but the function is or calls the new function `%s`, which has no contract" % (fkey, name, nf),
+                                  "rendered": rendered})
+            continue
         res.failures.append({"obligation": name, "fn": fkey, "clause": clause, "message": msg, "tags": tags,
                              "file": pfile, "line": pline, "rendered": rendered})
 
